@@ -145,6 +145,19 @@ extern size_t g_heap_ra_size;
 	H->elems = H##_l; H->nelems = n
 
 /*
+ * Whether the heap has a record-cookie callback: arbitrary for the abstract user (model 1); always for the
+ * timer-queue callbacks (model 2 and the timerqueue.c groups), because timerqueue.c never creates a heap without
+ * one and the callback-free behaviour is covered by model 1.  VCOVER1: a marker for the callback-free case.
+ */
+#if defined(HP_TARGET_TIMERQUEUE) || HP_MODEL == 2
+#define HP_USE_RC_DECL(v) const int v = 1
+#define VCOVER1(c) do {} while (0)
+#else
+#define HP_USE_RC_DECL(v) IN(int, v)
+#define VCOVER1(c) VCOVER(c)
+#endif
+
+/*
  * HP_SPLIT(v, stmt): execute stmt with v replaced by each constant 0 .. HP_MAXN (case split on a symbolic
  * index, so that the symbolic executor sees constant array indices; the union of the cases is all of v's
  * range, nothing is cut off: values above HP_MAXN fall into the last, unconstrained branch).
